@@ -27,6 +27,8 @@ import (
 	"google.golang.org/grpc/status"
 )
 
+var reqTimeout = 500 * time.Millisecond
+
 const (
 	c07ReqTimeout = 500 * time.Millisecond
 	c07RegTimeout = 2 * time.Second
@@ -136,7 +138,6 @@ func c07Send(a *adaptation.Adaptation, kind, id string, largeKB int) (contrib []
 	ctr := &api.Container{Id: id, PodSandboxId: id, Name: id}
 	if largeKB > 0 {
 		ctr.Annotations = map[string]string{"pad": strings.Repeat("p", largeKB<<10)}
-		pod.Annotations = ctr.Annotations
 	}
 	b := a.BlockPluginSync()
 	defer b.Unblock()
@@ -445,7 +446,7 @@ func runC07Case(dir string, cs c07Case, tag string, res *ev.Result) {
 			time.Sleep(150 * time.Millisecond)
 		}
 	}
-	nominal := time.Duration(cs.N)*c07ReqTimeout + time.Second
+	nominal := time.Duration(cs.N)*reqTimeout + time.Second
 	type out struct {
 		contrib []string
 		has     bool
@@ -637,9 +638,9 @@ func c07Cases(tier string, g *rand.Rand) []c07Case {
 		}
 	}
 	for _, k := range []int{0, 20, 5000, 200000} {
-		cs = append(cs, c07Case{Fault: "stall-large", Pos: 1, N: 3, Req: "create", K: k, LargeKB: 1024})
+		cs = append(cs, c07Case{Fault: "stall-large", Pos: 1, N: 3, Req: "create", K: k, LargeKB: 512})
 	}
-	cs = append(cs, c07Case{Fault: "stall-forever", Pos: 0, N: 3, Req: "create", LargeKB: 1024}, c07Case{Fault: "stall-forever", Pos: 2, N: 3, Req: "update", LargeKB: 1024})
+	cs = append(cs, c07Case{Fault: "stall-forever", Pos: 0, N: 3, Req: "create", LargeKB: 512}, c07Case{Fault: "stall-forever", Pos: 2, N: 3, Req: "update", LargeKB: 512})
 	cs = append(cs, c07Case{Fault: "flood-raw", Pos: 0, N: 3, Req: "create"}, c07Case{Fault: "flood-raw", Pos: 1, N: 3, Req: "statechange"})
 	cs = append(cs, c07Case{Fault: "flood", Pos: 0, N: 3, Req: "create"}, c07Case{Fault: "flood", Pos: 1, N: 2, Req: "updatepod"})
 	// two faulty plugins in one request
@@ -654,7 +655,14 @@ func c07Cases(tier string, g *rand.Rand) []c07Case {
 
 func runC07(c *ev.ChildEnv, res *ev.Result) {
 	rig.QuietLogs()
-	adaptation.SetPluginRequestTimeout(c07ReqTimeout)
+	// the heavy cases (large requests, flooding peers) run in a child of their own, one rig at a time and
+	// with a longer request timeout, so that a healthy plugin is not starved into a timeout on a loaded machine
+	heavy := os.Getenv("VERIF_C07_HEAVY") != ""
+	reqTimeout = c07ReqTimeout
+	if heavy {
+		reqTimeout = 3 * time.Second
+	}
+	adaptation.SetPluginRequestTimeout(reqTimeout)
 	adaptation.SetPluginRegistrationTimeout(c07RegTimeout)
 	g := rand.New(rand.NewPCG(uint64(c.Seed), 700)) // same list in every child
 	cases := c07Cases(c.Tier, g)
@@ -669,8 +677,14 @@ func runC07(c *ev.ChildEnv, res *ev.Result) {
 	var jobs []job
 	n := 0
 	only := os.Getenv("VERIF_ONLY")
+	isHeavy := func(f string) bool {
+		return f == "stall-large" || f == "stall-forever" || f == "flood" || f == "flood-raw"
+	}
 	for i, cs := range cases {
 		if only != "" && cs.Fault != only {
+			continue
+		}
+		if isHeavy(cs.Fault) != heavy && !(heavy && isHeavy(cs.Second)) {
 			continue
 		}
 		r := 1
@@ -679,7 +693,7 @@ func runC07(c *ev.ChildEnv, res *ev.Result) {
 		}
 		for rep := 0; rep < r; rep++ {
 			n++
-			if n%c.Batches != c.Batch {
+			if !heavy && n%(c.Batches-1) != c.Batch {
 				continue
 			}
 			cs.Rep = rep
@@ -687,7 +701,11 @@ func runC07(c *ev.ChildEnv, res *ev.Result) {
 		}
 	}
 	// at most four rigs at a time: the short timeouts must not be starved
-	sem := make(chan struct{}, 4)
+	par := 4
+	if heavy {
+		par = 1
+	}
+	sem := make(chan struct{}, par)
 	var wg sync.WaitGroup
 	c.WAL("running %d fault cases", len(jobs))
 	for _, j := range jobs {
@@ -737,9 +755,11 @@ func init() {
 				}
 				s = append(s, ev.ChildSpec{GOMAXPROCS: cs.GOMAXPROCS, CPUs: cs.CPUs})
 			}
+			// last child: the heavy cases on their own
+			s = append(s, ev.ChildSpec{ExtraEnv: []string{"VERIF_C07_HEAVY=1"}})
 			return s
 		},
-		Parallel: func(string) int { return 4 },
+		Parallel: func(string) int { return 5 },
 		Watchdog: func(tier string) time.Duration {
 			if tier == "thorough" {
 				return 50 * time.Minute
